@@ -5,7 +5,7 @@ The one-step induction of vt/harness/c15.py runs the real wrapper classes on rec
 real (MetadorContainer / MetadorMeta / MetadorContainerTOC.query on the in-memory substrate, plain
 file or IH5Record with a patch boundary): a start node and the three flags are chosen by the solver
 (symbolic, realised by branching), then every navigation primitive is applied to every node reached
-so far, up to chain length SEL["depth"], and on every node reached
+so far until the set of reached (node, flags, local root) states is closed (fixpoint), and on every node reached
  * the flags include the start node's flags, and under local_only its name lies inside the start
    node's subtree; `file` is refused, `parent` never leaves the subtree, absolute paths are refused;
  * read_only: every mutating member raises and the raw store is unchanged afterwards;
@@ -144,13 +144,17 @@ def closure_native(drvname, start, ro, lo, so, depth):
     seen = {}
     # frontier items: (chain, node, local root of the node or None)
     frontier = [("start", n, ("/" + start.strip("/")) if lo else None)]
-    for level in range(depth + 1):
+    level = 0
+    while frontier:  # until the set of reached (node, flags, local root) states is closed under navigation
+        level += 1
+        if level > 12:
+            raise AssertionError("navigation closure did not saturate within 12 rounds")
         nxt = []
         for how, x, lroot in frontier:
             xa = x.acl
             xlo = xa[NodeAcl.local_only]
             cands = [(h2, y, lroot) for h2, y in _derive(x)]
-            if isinstance(x, MetadorGroup) and level < depth:
+            if isinstance(x, MetadorGroup):
                 # a child that is restricted further (restrict() works in place on the fresh child wrapper)
                 for k in list(x.keys()):
                     for extra in EXTRA:
